@@ -44,6 +44,50 @@ Definition well_locked (tbl : list minfo) : bool :=
     end &&
     (if m_locks m then negb (reaches_lock 6 tbl (m_calls m)) else true)) tbl.
 
+(* ---------------- one critical section per call ----------------
+   An upper bound on the number of critical sections that one call of a function enters, saturated at 2 ("several").
+   A call that enters one critical section takes effect atomically at that section; a public method that could enter
+   several (as BatchWriteItem did, one per request: fix aae4d34) is not atomic.
+   The emulated-failure pre-check of the SDK v1 single-item methods ([failureErr] before the lock) is the one benign
+   exception: it only reads, and the same field is read again under the lock (rechecks), so when the pre-check lets
+   the call proceed its answer is not used, and when it does not, the call ends there: either way one section decides. *)
+Definition sat2 (n : nat) : nat := if Nat.leb 2 n then 2 else n.
+
+(* does a function, or a helper it calls while holding the lock, read the field under the lock? *)
+Fixpoint reads_under_lock (fuel : nat) (tbl : list minfo) (field : str) (held_now : bool) (m : minfo) : bool :=
+  match fuel with
+  | O => false
+  | S f =>
+      (if held_now then mem_str field (m_unlocked m) else false) ||
+      (if m_locks m then mem_str field (m_locked m) else false) ||
+      (if held_now || m_locks m
+       then existsb (fun n => match find_method tbl n with
+                              | Some c => if m_locks c then false else reads_under_lock f tbl field true c
+                              | None => false end) (m_calls m)
+       else false)
+  end.
+
+Fixpoint sections (fuel : nat) (tbl : list minfo) (m : minfo) : nat :=
+  match fuel with
+  | O => 2
+  | S f =>
+      let of_callee (inloop : list str) (n : str) : nat :=
+        match find_method tbl n with
+        | Some c => let k := sections f tbl c in if mem_str n inloop then sat2 (2 * k) else k
+        | None => 0
+        end in
+      if m_locks m then
+        (* its own section, plus what it enters before it takes the lock (helpers called under the lock can not take
+           it: well_locked) *)
+        sat2 (1 + fold_right (fun n acc =>
+                                if str_eqb n (bs "failureErr") && reads_under_lock 6 tbl (bs "forceFailureErr") false m
+                                then acc else of_callee (m_loops m) n + acc) 0 (m_pre m))
+      else sat2 (fold_right (fun n acc => of_callee (m_loops m) n + acc) 0 (m_calls m))
+  end.
+
+Definition one_section_per_call (tbl : list minfo) : bool :=
+  forallb (fun m => negb (m_public m) || Nat.leb (sections 8 tbl m) 1) tbl.
+
 (* ---------------- what mutual exclusion gives ---------------- *)
 (* An execution is a sequence of steps of threads: acquire, an access to shared state, release. *)
 Inductive stepk := Acq | Ev (e : nat) | Rel.
